@@ -3,8 +3,10 @@
 import json, os, shutil, sys, re
 pid, k, caught, checks = sys.argv[1:5]
 clauses = sys.argv[5:]
-src = "/tmp/seed/%s/out/%s" % (pid, k)
-dst = "/verif/seeded/%s-%s" % (pid, k)
+base = os.environ.get("SEED_BASE", "/tmp/seed")
+tag = os.environ.get("SEED_TAG", "")
+src = "%s/%s/out/%s" % (base, pid, k)
+dst = "/verif/seeded/%s-%s%s" % (pid, tag.replace("_", "-"), k)
 os.makedirs(dst, exist_ok=True)
 for f in ("patch.diff", "demo.py", "notes.md"):
     shutil.copy(os.path.join(src, f), os.path.join(dst, f))
